@@ -64,6 +64,9 @@ class C01(fc.FlowCheck):
         plain = [x for x in obs['start_calls'] if not x]
         if len(plain) > 1:
             fails.append(('start_response-twice', 'start_response called %d times without exc_info' % len(plain)))
+        if obs['requests'] > fc.HOP_LIMIT:
+            fails.append(('redirect-loop-unbounded', 'a cycle of internal redirects was not cut: %d requests were '
+                          'created in one session' % obs['requests']))
         if not esc and not obs['start_calls']:
             fails.append(('no-response', 'start_response was never called'))
         if obs['status'] is not None and not (100 <= obs['status'] <= 599):
@@ -103,6 +106,72 @@ class C01(fc.FlowCheck):
             else:
                 fails.append(('leak:other', 'traceback/exception text in the body although show_tracebacks is off'))
         return fails
+
+    def extra(self):
+        """the first requests of an application arrive on two threads at once (the WSGI pipeline is assembled lazily
+        by the first call): whichever thread assembles it, every request must go through the whole pipeline -
+        an InternalRedirect, a failing handler must be answered, never escape"""
+        import threading
+        import cherrypy
+        from ..impl import wsgi
+        out = []
+        for second in ('/ir', '/boom', '/ok'):
+            started, release = threading.Event(), threading.Event()
+            built = []
+
+            class Slow(object):
+                def __init__(self, nextapp, **kw):
+                    self.nextapp = nextapp
+                    built.append(1)
+                    if len(built) == 1:          # only the very first construction is slow
+                        started.set()
+                        release.wait(10)
+
+                def __call__(self, environ, start_response):
+                    return self.nextapp(environ, start_response)
+
+            class Root(object):
+                @cherrypy.expose
+                def index(self):
+                    return b'index'
+
+                @cherrypy.expose
+                def ok(self):
+                    return b'ok'
+
+                @cherrypy.expose
+                def ir(self):
+                    raise cherrypy.InternalRedirect('/ok')
+
+                @cherrypy.expose
+                def boom(self):
+                    raise ValueError('boom')
+            app = wsgi.make_app(Root(), {'/': {'wsgi.pipeline': [('slow', Slow)], 'request.show_tracebacks': False}})
+            res = {}
+            t1 = threading.Thread(target=lambda: res.__setitem__('first', wsgi.call(app, 'GET', '/')), daemon=True)
+            t1.start()
+            started.wait(10)
+            t2 = threading.Thread(target=lambda: res.__setitem__('second', wsgi.call(app, 'GET', second)), daemon=True)
+            t2.start()
+            t2.join(10)
+            release.set()
+            t1.join(10)
+            self.count('concurrent first requests (lazy pipeline assembly)')
+            want = {'/ir': 200, '/boom': 500, '/ok': 200}[second]
+            for who, w in (('first', 200), ('second', want)):
+                r = res.get(who)
+                if r is None or r['escaped'] or r['status'] != w or r['problems']:
+                    out.append(core.Violation(
+                        'pipeline-assembly-race', 'two first requests overlapped (GET / and GET %s): the %s one gave %s'
+                        % (second, who, None if r is None else {'status': r['status'], 'escaped': r['escaped'],
+                                                                 'problems': r['problems']}),
+                        case={'k': 'first-requests-overlap', 'second': second},
+                        observed={k: (None if v is None else {'status': v['status'], 'escaped': v['escaped']})
+                                  for k, v in res.items()}))
+                    break
+            if out:
+                break
+        return out
 
     def _hook_ran(self, obs, hid):
         return any(e[0].startswith('RunHooks') and hid in e[2] for e in obs['journal'])
